@@ -150,10 +150,25 @@ def followImpl (func : Nat) (slot : List Nat) (jit : Nat) (tr : List Nat) : Opti
     if d1 == jit then (followWide jit tr 0).map (·.1) else some d1
   | none => none
 
+/-- value a call of target `i` must return now: its latest fake's, else — for a stub whose whole
+    entry is `jmp rel32` to another target of the history — whatever that target returns now,
+    else its own constant -/
 def expectCall (s : HSt) (i : Nat) : Nat :=
   match s.latest.find? (·.1 == i) with
   | some (_, v) => v
-  | none => (s.targets.getD i { addr := 0, k := 0, init := [] }).k
+  | none =>
+    let t := s.targets.getD i { addr := 0, k := 0, init := [] }
+    if t.init.take 1 == [0xE9] then
+      let rel := t.init.getD 1 0 + 256 * t.init.getD 2 0 + 65536 * t.init.getD 3 0 + 16777216 * t.init.getD 4 0
+      let dest := (t.addr + 5 + rel) % 4294967296 + t.addr / 4294967296 * 4294967296
+      match s.targets.findIdx? (·.addr == dest) with
+      | some j =>
+        if j == i then t.k else
+        (match s.latest.find? (·.1 == j) with
+         | some (_, v) => v
+         | none => t.k)
+      | none => t.k
+    else t.k
 
 /-- common checks after any operation: slots vs model, frame, calls -/
 def checkAfter (s : HSt) (obs : List String) (phase : String) : HSt := Id.run do
@@ -343,5 +358,20 @@ def handleCycles (args obs : List String) : Verdict :=
     { agree := agree, propOk := keys.isEmpty,
       branch := "cycles" ++ (if (g "repeated").getD 0 > 0 then "+rep" else ""), detail := String.join keys }
   | _, _, _, _ => bad "cycles-fields"
+
+/-- `selfuse <fn> | [seen=] faked= dropped= restored= orig= used_by_restore= [DIED …]`: a libc
+    function the library calls on its own restore path is itself faked (with a fake that does
+    the real work); the injector must still go away cleanly and restore everything (C02). -/
+def handleSelfUse (args obs : List String) : Verdict :=
+  match args with
+  | [f] =>
+    let died := obs.any (·.startsWith "DIED")
+    let ok := !died && kv obs "faked" == some "1" && kv obs "dropped" == some "1" &&
+              kv obs "restored" == some "1" && kv obs "orig" == some "1"
+    let key := if died then (if kv obs "dropped" == some "1" then " key=c02.crash-after-drop" else " key=c02.crash-during-drop")
+               else if kv obs "restored" != some "1" || kv obs "orig" != some "1" then " key=c02.restore-bytes" else " key=c02.selfuse"
+    { agree := ok, propOk := ok, branch := "selfuse-" ++ f ++ (if kv obs "used_by_restore" == some "1" then "+used-by-restore" else ""),
+      detail := if ok then "" else key }
+  | _ => bad "arity"
 
 end Driver
